@@ -110,6 +110,13 @@ def grammar_case(chk, g, r):
         used.update(names)
         rem.append(NonSymmetricTensor(r.choice(["n", "m"]) + str(n),
                                       get_symbols(names)))
+    if rem and r.random() < 0.3:
+        # a polynomial remainder: a bracket of two tensors on the same indices
+        # (when a pair resolves to 1, sympy distributes numbers over it)
+        t0 = rem[0]
+        rem[0] = t0 + NonSymmetricTensor("k" + str(len(t0.indices)), t0.indices)
+        if r.random() < 0.5:
+            rem.append(r.choice([2, -1, 3]))
     term = Mul(*factors, *rem)
     if term == 0 or not term.atoms(NonSymmetricTensor, AntiSymmetricTensor):
         return
@@ -180,6 +187,32 @@ def run(chk):
     g = gen.Gen(chk.seed, spaces="ovg")
     for _ in range(n_grammar):
         grammar_case(chk, g, r)
+    # pairs next to a polynomial remainder only
+    p_, q_, r_, s_ = get_symbols("pqrs")
+    Uf = lambda x, y: NonSymmetricTensor("U", (x, y))  # noqa
+    A1 = lambda *ix: NonSymmetricTensor("n" + str(len(ix)), ix)  # noqa
+    B1 = lambda *ix: NonSymmetricTensor("k" + str(len(ix)), ix)  # noqa
+    for term, tsy in [
+            (Uf(p_, q_) ** 2 * (A1(q_) + B1(q_)), [q_]),
+            (2 * Uf(p_, q_) ** 2 * (A1(q_) + B1(q_)), [q_]),
+            (Uf(p_, q_) * Uf(p_, r_) * (A1(q_, r_) + B1(q_, r_)), []),
+            (3 * Uf(q_, p_) * Uf(r_, p_) * (A1(q_, r_) - B1(r_, q_)), []),
+            (Uf(p_, q_) ** 3 * Uf(p_, r_) * (A1(r_) + B1(r_)), [q_, r_]),
+            (Uf(p_, q_) * Uf(p_, r_) * (A1(q_) + B1(q_)) * (A1(r_) + 2 * B1(r_)),
+             [])]:
+        for evd in (False, True):
+            pre = Expr(term, target_idx=tsy)
+            post, exc = guarded(simplify_unitary, pre, "U", evd)
+            chk.count("simplify_unitary_calls")
+            what = (f"simplify_unitary({term}, 'U', evaluate_deltas={evd}) "
+                    f"targets=explicit:{tsy}")
+            if exc is not None:
+                chk.report_direct("simplify_unitary:polynomial:exception",
+                                  what + f" raised {exc['type']}: {exc['msg']}",
+                                  {"input": what})
+                continue
+            emit(chk, pre, post, "simplify_unitary:polynomial", what, tsy, "g",
+                 evd, (3, 3), True)
     chk.judge(chunk=1500)
     return chk.finish(
         rule="(1) every input of the build phase of spec/Unitary.tla "
